@@ -73,6 +73,10 @@ Definition perform_prog (s : sess) (deps : list bytes) (prog : list step) : list
 Definition vperform (s : sess) (c : vgcall) : list event * outcome :=
   perform_prog s (vg_deps c) (vg_steps c).
 
+(* the vendor object built before ([None]) / after ([Some s]) the <hello> exchange, request() on the connected session *)
+Definition vperform_at (s0 : option sess) (s : sess) (c : vgcall) : list event * outcome :=
+  perform_prog_at s0 s (vg_deps c) (vg_steps c).
+
 (* the capability-dependent constructs a vendor request carries (Gating.wire): the <url> datastore_or_url builds *)
 Definition vwire_of (c : vgcall) : list wire :=
   match c with
